@@ -367,18 +367,9 @@ impl LuaEngine {
             }
             LuaValue::Integer(i) => RespFrame::Integer(i),
             LuaValue::Number(n) => {
-                if n.is_nan() {
-                    RespFrame::BulkString(None)
-                } else if n.is_infinite() {
-                    let inf_str = if n.is_sign_positive() { "inf" } else { "-inf" };
-                    RespFrame::BulkString(Some(Arc::new(inf_str.as_bytes().to_vec())))
-                } else if n.fract() == 0.0 && n >= i64::MIN as f64 && n <= i64::MAX as f64 {
-                    RespFrame::Integer(n as i64)
-                } else {
-                    let formatted = format!("{:.17}", n);
-                    let trimmed = formatted.trim_end_matches('0').trim_end_matches('.');
-                    RespFrame::BulkString(Some(Arc::new(trimmed.as_bytes().to_vec())))
-                }
+                // Redis converts a Lua number to an integer reply, dropping the fraction
+                // (NaN becomes 0, values beyond the i64 range saturate)
+                RespFrame::Integer(n as i64)
             }
             LuaValue::String(s) => {
                 RespFrame::BulkString(Some(Arc::new(s.as_bytes().to_vec())))
@@ -394,11 +385,8 @@ impl LuaEngine {
                     }
                 }
                 
-                if items.is_empty() {
-                    RespFrame::BulkString(None)
-                } else {
-                    RespFrame::Array(Some(items))
-                }
+                // An empty table is an empty array reply, not nil
+                RespFrame::Array(Some(items))
             }
             _ => RespFrame::BulkString(None),
         }
